@@ -206,3 +206,15 @@ Theorem C18_payload_example :
   Some (VEnum 5 [VPrim 70000; VPrim 1]%N, []).
 Proof. exact (conj cx_standalone_shape (conj eq_refl cx_payload_bytes)). Qed.
 Print Assumptions C18_payload_example.
+
+(** ... and for EVERY list of field values, by [C18_payload_named] (whose hypotheses are
+    therefore satisfiable, with the concrete primitive codecs) *)
+Theorem C18_payload_example_all :
+  forall vals,
+    encode iprims (shape_rust cx_items cx_settings 4 (cx_path 5)) (VEnum 5 vals) =
+    match encode iprims (item_shape cx_items cx_settings 3 cx_standalone []) (VStruct vals) with
+    | Some e => Some (5%N :: e)
+    | None => None
+    end.
+Proof. exact cx_payload_by_theorem. Qed.
+Print Assumptions C18_payload_example_all.
